@@ -1,6 +1,7 @@
 package ana
 
 import (
+	"strings"
 	"fmt"
 	"go/constant"
 	"go/token"
@@ -289,6 +290,11 @@ func (ti *tinterp) call(fr *tframe, mask []bool) ([][]int64, error) {
 					}
 					tab, ok := ti.fields[a.path]
 					if !ok {
+						// a non-scalar value (struct) that is only handed to opaque calls declared as inputs
+						if _, isStruct := x.Type().Underlying().(*types.Struct); isStruct {
+							fr.vals[x] = &tval{path: a.path}
+							continue
+						}
 						return nil, fmt.Errorf("load of non-symbolic field %s in %s (declare it as an input)", a.path, fn)
 					}
 					cp := make([]int64, ti.n)
@@ -433,7 +439,17 @@ func (ti *tinterp) call(fr *tframe, mask []bool) ([][]int64, error) {
 			case *ssa.Call:
 				callee := x.Call.StaticCallee()
 				if callee == nil || callee.Blocks == nil {
-					return nil, fmt.Errorf("call to non-inlinable %s in %s", CalleeName(&x.Call), fn)
+					// an opaque call declared as an input: "call:<callee>(<arg paths>)"
+					var aps []string
+					for _, a := range x.Call.Args {
+						aps = append(aps, AccessPath(a))
+					}
+					key := "call:" + CalleeName(&x.Call) + "(" + strings.Join(aps, ",") + ")"
+					if tab, ok := ti.fields[key]; ok {
+						fr.vals[x] = &tval{tab: tab}
+						continue
+					}
+					return nil, fmt.Errorf("call to non-inlinable %s in %s (input key %s)", CalleeName(&x.Call), fn, key)
 				}
 				nf := &tframe{fn: callee, vals: map[ssa.Value]*tval{}, prefix: map[ssa.Value]string{}}
 				for ai, prm := range callee.Params {
